@@ -248,6 +248,25 @@ def consumers_ob():
                         out['pl'] = plv
                         out['entropic risk'] = pnn.EntropicRiskMeasure()(plv)
                         out['expected shortfall'] = pnn.ExpectedShortfall(0.5)(plv)
+                        # averaged evaluations (n_times >= 2) of a freshly simulated instrument of dtype D
+                        und5 = pi.BrownianStock(dt=0.1, dtype=D)
+                        d5 = pi.EuropeanOption(und5, maturity=0.2)
+                        hn = pnn.Hedger(pnn.Naked(), ['empty'])
+                        out['compute_loss(n_times=2)'] = hn.compute_loss(d5, n_paths=4, n_times=2)
+                        out['price(n_times=3)'] = hn.price(d5, n_paths=4, n_times=3)
+                        # call history: the SAME feature objects and the same hedger were used before with an instrument of another dtype
+                        Dprev = torch.float64 if D is not torch.float64 else torch.float32
+                        da, db = H.mk_derivative(dtype=Dprev), H.mk_derivative(dtype=D)
+                        for fname in ('time_to_maturity', 'expiry_time', 'log_moneyness', 'volatility', 'zeros'):
+                            f0 = get_feature(H.FEATURES[fname][0]())
+                            f0.of(da).get(None)
+                            f0.of(da).get(SInt(H.I))
+                            out['feature:%s:all after use with a %s instrument' % (fname, Dprev)] = f0.of(db).get(None)
+                            out['feature:%s:i after use with a %s instrument' % (fname, Dprev)] = f0.of(db).get(SInt(H.I))
+                        bsa = pnn.BlackScholes(da)
+                        hprev = pnn.Hedger(bsa, bsa.inputs())
+                        hprev.compute_hedge(da)
+                        out['hedge after the hedger was used with a %s instrument' % Dprev] = hprev.compute_hedge(db)
                         ww = pnn.Hedger(pnn.WhalleyWilmott(d2), pnn.WhalleyWilmott(d2).inputs())
                         old = H._set_T(3)
                         try:
@@ -307,6 +326,17 @@ for default in (torch.float32, torch.float64):
             vals["f:" + f] = get_feature(f).of(d).get(None); vals["fi:" + f] = get_feature(f).of(d).get(1)
         bs = pnn.BlackScholes(d); vals["bs"] = bs.price(); vals["delta"] = bs.delta()
         h = pnn.Hedger(bs, bs.inputs()); vals["hedge"] = h.compute_hedge(d); vals["pl"] = h.compute_pl(d)
+        hn = pnn.Hedger(pnn.Naked(), ["empty"])
+        d5 = pi.EuropeanOption(pi.BrownianStock(dt=0.1, dtype=D), maturity=0.2)
+        vals["compute_loss(n_times=2)"] = hn.compute_loss(d5, n_paths=4, n_times=2); vals["price(n_times=3)"] = hn.price(d5, n_paths=4, n_times=3)
+        # call history: the same feature objects / hedger used before with an instrument of the other dtype (same grid)
+        Dp = torch.float64 if D == torch.float32 else torch.float32
+        ua = pi.BrownianStock(dtype=Dp); da = pi.EuropeanOption(ua); da.simulate(n_paths=3)
+        for fn_ in ("time_to_maturity", "log_moneyness", "volatility"):
+            f0 = get_feature(fn_); f0.of(da).get(None); f0.of(da).get(1)
+            vals["history f:" + fn_] = f0.of(d).get(None); vals["history fi:" + fn_] = f0.of(d).get(1)
+        bsa = pnn.BlackScholes(da); hp = pnn.Hedger(bsa, bsa.inputs()); hp.compute_hedge(da)
+        vals["history hedge"] = hp.compute_hedge(d)
         for k, v in vals.items():
             if v.dtype != D: bad.append((str(default), str(D), k, str(v.dtype)))
 torch.set_default_dtype(torch.float32)
